@@ -64,6 +64,7 @@ class RealWorld:
         self.stores = {}      # sid -> TokenStore
         self.refs = {}        # sid -> plain list of VTok
         self.toks = {}        # vid -> VTok
+        self.src = {}         # sid -> (list object given to from_tokens, copy of its content)
         self.internal_ok = True
 
     def tok(self, arg):
@@ -144,7 +145,17 @@ class RealWorld:
                 return line.rstrip(), 'err ValueError:already-in-store', [], 'ValueError'
             self.stores[sid] = s
             self.refs[sid] = list(toks)
+            self.src[sid] = (toks, list(toks))      # the very list object handed to from_tokens, and what it held
             return line.rstrip(), self._ok(self.dump_store(sid)), [], None
+        if k == 'scribble':
+            # the caller goes on using the list it built the store from: the store is a container of its own
+            lst, _ = self.src[op['sid']]
+            if op['how'] == 'clear':
+                lst.clear()
+            else:
+                lst.reverse()
+            self.src[op['sid']] = (lst, list(lst))
+            return None, None, [], None
         if k == 'update_free':
             # a token that is in no store has its text changed (and is typically re-inserted later)
             t = self.toks[op['tok']]
@@ -226,6 +237,11 @@ class RealWorld:
         s = self.stores[sid]
         ref = self.refs[sid]
         bad = []
+        if sid in self.src:
+            lst, held = self.src[sid]
+            if len(lst) != len(held) or any(a is not b for a, b in zip(lst, held)):
+                bad.append(('C07:callers-list-changed', 'the list object given to from_tokens was changed by a store operation'))
+                return bad
         got = list(s)
         if len(got) != len(ref) or any(a is not b for a, b in zip(got, ref)):
             bad.append(('C07:iter', f'iteration {[t.vid for t in got]} != list {[t.vid for t in ref]}'))
@@ -302,6 +318,8 @@ class Gen:
         n0 = rng.choice([0, 1, 2, lf, lf + 1, 2 * lf, 2 * lf + 1, 3 * lf + 1, 5 * lf, rng.randrange(0, 6 * lf + 2)])
         yield {'op': 'from', 'sid': 1, 'toks': self.new(n0)}
         pool = []  # vids of removed tokens (free again)
+        if rng.random() < 0.25:
+            yield {'op': 'scribble', 'sid': 1, 'how': rng.choice(['clear', 'reverse'])}
         for _ in range(nops):
             ref = world.refs[1]
             r = rng.random()
@@ -405,12 +423,13 @@ def run_histories(ctx, nhist, nops, lfs, with_model=True, prefix='C07', judge=('
                                 f'{type(e).__name__}: {e} in {op["op"]}', {'consts': consts, 'history': ops})
                 failed = True
                 break
-            lines.append((line, exp))
+            if line is not None:
+                lines.append((line, exp))
             ctx.count('op:' + op['op'] + (':' + err if err else ''))
             shape1 = block_sig(world, op['sid'])
             ctx.case((op['op'], err, len(shape0), len(shape1), shape0 != shape1, min(shape1 or (0,)) <= consts[2], lf),
                      sample={'lf': lf, 'op': op, 'blocks_before': shape0, 'blocks_after': shape1} if ctx.evaluations % 997 == 0 else None)
-            if err is None and op['op'] not in ('iter', 'update_free'):
+            if err is None and op['op'] not in ('iter', 'update_free'):   # (after a scribble the store is compared with the plain list as after any op)
                 bad = world.oracle(op['sid'], removed) + world.oracle_iter(op['sid'], ctx.rng)
                 bad = [b for b in bad if b[0].split(':')[0] in judge]
                 ql, qe, _, _ = world.apply({'op': 'query', 'sid': op['sid']})
